@@ -1,6 +1,14 @@
 (* C13-C17: shared object model (db/Tree.v) and the history handlers *)
-open Model
+module List = Stdlib.List
+module String = Stdlib.String
+module Printf = Stdlib.Printf
+open BinNums
+open Datatypes
 open Driver
+open Tree
+open History
+open Merge
+open Outcome
 
 let optz_of_sexp = opt_of_sexp z_of_sexp
 let times_of_sexp = function
@@ -8,13 +16,13 @@ let times_of_sexp = function
   | s -> failwith ("times: " ^ show_sexp s)
 let rec entry_of_sexp = function
   | L [A "e"; u; d; t; h] ->
-    MkEntry (n_of_sexp u, n_of_sexp d, times_of_sexp t, opt_of_sexp (list_of_sexp entry_of_sexp) h)
+    Coq_mkEntry (n_of_sexp u, n_of_sexp d, times_of_sexp t, opt_of_sexp (list_of_sexp entry_of_sexp) h)
   | s -> failwith ("entry: " ^ show_sexp s)
 
 let show_optz = show_opt show_z
 let show_times t = Printf.sprintf "(%s %s %s)" (show_optz t.t_lm) (show_optz t.t_lc) (show_n t.t_rest)
 let rec show_entry = function
-  | MkEntry (u, d, t, h) ->
+  | Coq_mkEntry (u, d, t, h) ->
     Printf.sprintf "(e %s %s %s %s)" (show_n u) (show_n d) (show_times t)
       (match h with None -> "none" | Some l -> "(some " ^ show_list show_entry l ^ ")")
 
